@@ -408,8 +408,11 @@ func compare(progsPath string, outs []string) {
 				return err
 			}
 			p, ok := progs[o.ID]
-			if !ok || o.Env >= len(p.Den) {
-				return fmt.Errorf("output for unknown program %d env %d", o.ID, o.Env)
+			if !ok {
+				return fmt.Errorf("output for unknown program %d", o.ID)
+			}
+			if o.Env >= len(p.Den) {
+				return nil // this program's family is denoted for fewer environments
 			}
 			n++
 			seen[fmt.Sprintf("%d/%d/%d", o.ID, o.Variant, o.Env)] = true
